@@ -537,8 +537,9 @@ class ExecMixin(object):
         names |= set(extra_names)
         # calls through contracts: the receiver of a method that has a contract, and every name passed to a callee that
         # has a contract, may be modified by it
-        cmethods = set(m for (_, m) in self.method_contracts)
-        gnames = set(self.unit.global_callees)
+        pure = set(getattr(self.unit, "pure_callees", ()))     # contracts that modify neither receiver nor arguments
+        cmethods = set(m for (_, m) in self.method_contracts) - pure
+        gnames = set(self.unit.global_callees) - pure
         for s_ in body:
             for n_ in ast.walk(s_):
                 if isinstance(n_, ast.Call):
